@@ -227,6 +227,21 @@ def reindex_database(
             session.repo.add_file(zorg_page)
             session.commit()
 
+    if not cmd.paths:
+        # Pages that were indexed by an earlier run but no longer exist (they
+        # have been deleted or renamed) must not linger in the index.
+        stale_page_names = set(old_file_to_hash) - set(file_to_hash)
+        for stale_page_name in sorted(stale_page_names):
+            if session.repo.remove_file_by_name(stale_page_name) is not None:
+                num_of_updates += 1
+                c.zprint(
+                    "REMOVING DELETED FILE",
+                    stale_page_name,
+                    fg_color=Color.BLACK,
+                    bg_color=Color.YELLOW,
+                )
+                session.commit()
+
     if num_of_updates == 0:
         c.zprint("NO ZORG FILES HAVE BEEN MODIFIED")
 
